@@ -199,9 +199,13 @@ Proof.
     destruct (decode_value f x) as [x'|e'] eqn:Ex; cbn [bind] in H; [|inversion H; subst; eapply IH; eauto].
     destruct (mapM (decode_value f) r) as [r'|e'] eqn:Er; cbn [bind] in H; [discriminate|].
     apply IHl. cbn [bind]. exact H.
-  - induction kvs as [|[k x] r IHl]; cbn [mapM bind] in H; [discriminate|].
+  - destruct f as [|f2]; [inversion H; reflexivity|].
+    assert (forall v0 e0, decode_value f2 v0 = Err e0 -> e0 = IRecursion) as IH2.
+    { intros v0 e0 Hv. (* the induction hypothesis at S f2, through a one-element list *)
+      apply (IH (BList [v0]) e0). cbn [decode_value mapM]. rewrite Hv. reflexivity. }
+    induction kvs as [|[k x] r IHl]; cbn [mapM bind] in H; [discriminate|].
     cbn [fst snd] in H.
-    destruct (decode_value f x) as [x'|e'] eqn:Ex; cbn [bind] in H; [|inversion H; subst; eapply IH; eauto].
+    destruct (decode_value f2 x) as [x'|e'] eqn:Ex; cbn [bind] in H; [|inversion H; subst; eapply IH2; eauto].
     match type of H with bind (bind (mapM ?F r) _) _ = _ => destruct (mapM F r) as [r'|e'] eqn:Er end; cbn [bind] in H; [discriminate|].
     apply IHl. cbn [bind]. exact H.
 Qed.
@@ -218,8 +222,8 @@ Qed.
 
 Lemma rs_convert_typed v : doc_err (rs_convert v).
 Proof.
-  unfold rs_convert. pose proof (decode_value_err depth_limit v) as Hd.
-  destruct (decode_value depth_limit v) as [p|e]; [exact I|].
+  unfold rs_convert. pose proof (decode_value_err (S depth_limit) v) as Hd.
+  destruct (decode_value (S depth_limit) v) as [p|e]; [exact I|].
   rewrite (Hd e eq_refl). vm_compute. auto.
 Qed.
 
